@@ -40,12 +40,20 @@ def rule_interface(run):
     if not loops:
         raise AnalysisError("port declaration loop not found")
     chain = [s for s in loops[0].body if isinstance(s, ast.If)]
+    # roles of the loop's locals, whatever they are called
+    lt = loops[0].target
+    name_v, port_v = (lt.elts[0].id, lt.elts[1].id) if isinstance(lt, ast.Tuple) and len(lt.elts) == 2 else ("name", "port")
+    dv = [b["__d"] for _n, b in P.find(loops[0], f"__d = {port_v}.direction()")]
+    dir_v = dv[0] if dv else "direction"
+    rets = [r for r in f.node.body if isinstance(r, ast.Return) and isinstance(r.value, ast.Name)]
+    ret_v = rets[-1].value.id if rets else "ret"
     table = {}
     node = chain[0] if chain else None
     last = None
     while isinstance(node, ast.If):
-        t = P.T(node.test)
+        t = src(node.test).replace(dir_v + ".", "direction.")
         v = [a.value.value for a in node.body if isinstance(a, ast.Assign) and isinstance(a.value, ast.Constant)]
+        mode_vars = [a.targets[0].id for a in node.body if isinstance(a, ast.Assign) and isinstance(a.value, ast.Constant) and isinstance(a.targets[0], ast.Name)]
         table[t] = v[0] if v else None
         last = node
         node = node.orelse[0] if len(node.orelse) == 1 and isinstance(node.orelse[0], ast.If) else None
@@ -54,8 +62,8 @@ def rule_interface(run):
         run.ob(table.get(k) == v, "vhdl.Entity._port_declarations", file=vh.rel, line=f.node.lineno, detail=k, expected=f"{k} -> {v}", found=str(table.get(k)))
     ok = last is not None and bool(last.orelse) and isinstance(last.orelse[-1], ast.Raise)
     run.ob(ok, "vhdl.Entity._port_declarations", file=vh.rel, line=f.node.lineno, detail="fail-closed", expected="unknown direction raises", found="raise" if ok else "falls through")
-    app = [c for c in calls_in(loops[0]) if dotted(c.func) == "ret.append"]
-    ok = len(app) == 1 and isinstance(app[0].args[0], ast.JoinedStr) and [src(v.value) for v in app[0].args[0].values if isinstance(v, ast.FormattedValue)][:2] == ["name", "dir_str"]
+    app = [c for c in calls_in(loops[0]) if dotted(c.func) == f"{ret_v}.append"]
+    ok = len(app) == 1 and isinstance(app[0].args[0], ast.JoinedStr) and [src(v.value) for v in app[0].args[0].values if isinstance(v, ast.FormattedValue)][:2] == [name_v, (mode_vars[0] if mode_vars else "dir_str")]
     run.ob(ok, "vhdl.Entity._port_declarations", file=vh.rel, line=f.node.lineno, detail="template", expected="`{name} : {dir_str} <type>;` for every port", found=src(app[0].args[0])[:70] if app else "missing")
     init = vh.func("Entity.__init__")
     ok = "self._ports = info.ports" in P.T(init.node)
@@ -90,10 +98,16 @@ def rule_port_map(run):
     ok = len(app) == 1 and isinstance(app[0].args[0], ast.Tuple) and dotted(app[0].args[0].elts[0]) == v and P.T(app[0].args[0].elts[1]) == f"self._scope.format_target(self._ports[{v}])"
     run.ob(ok, "EntityInst._port_map", file=vh.rel, line=l.lineno, detail="same-key", expected=f"({v}, format_target(self._ports[{v}]))", found=src(app[0].args[0])[:80] if app else "missing")
     tmpl = [j for j in ast.walk(f.node) if isinstance(j, ast.JoinedStr) and "=>" in P.T(j)]
-    ok = len(tmpl) == 1 and [src(x.value) for x in tmpl[0].values if isinstance(x, ast.FormattedValue)][:2] == ["port_name", "local"]
-    run.ob(ok, "EntityInst._port_map", file=vh.rel, line=f.node.lineno, detail="template", expected="{port_name} => {local}", found=src(tmpl[0]) if tmpl else "missing")
     comp = [c for c in ast.walk(f.node) if isinstance(c, ast.ListComp) and tmpl and any(x is tmpl[0] for x in ast.walk(c))]
-    ok = bool(comp) and "zip(port_map, line_end)" in P.T(comp[0].generators[0].iter)
+    # the comprehension unpacks (formal, actual) pairs of the collected list: `for (formal, actual), sep in zip(<pairs>, ..)`
+    pair = None
+    if comp and isinstance(comp[0].generators[0].target, ast.Tuple) and isinstance(comp[0].generators[0].target.elts[0], ast.Tuple):
+        pair = [dotted(e) for e in comp[0].generators[0].target.elts[0].elts]
+    ok = len(tmpl) == 1 and pair is not None and [src(x.value) for x in tmpl[0].values if isinstance(x, ast.FormattedValue)][:2] == pair
+    run.ob(ok, "EntityInst._port_map", file=vh.rel, line=f.node.lineno, detail="template", expected="{port_name} => {local}", found=src(tmpl[0]) if tmpl else "missing")
+    pairs_v = dotted(app[0].func.value) if app else None
+    it = comp[0].generators[0].iter if comp else None
+    ok = bool(comp) and isinstance(it, ast.Call) and dotted(it.func) == "zip" and bool(it.args) and dotted(it.args[0]) == pairs_v
     run.ob(ok, "EntityInst._port_map", file=vh.rel, line=f.node.lineno, detail="all-associations", expected="every collected pair is emitted", found="ok" if ok else "changed")
     a = run.idx.mod(ASM)
     ap = a.func("VhdlAssembler.apply")
@@ -163,14 +177,18 @@ def rule_library_order(run):
     f = vh.func("Library.from_top_entity")
     c = vh.func("Library.from_top_entity.<locals>.collect_subenties")
     loops = [l for l in c.node.body if isinstance(l, ast.For)]
-    adds = [s for s in c.node.body if isinstance(s, ast.Expr) and isinstance(s.value, ast.Call) and dotted(s.value.func) == "entities.add"]
+    ents = [b["__e"] for _n, b in P.find(f.node.body, "__e = IdSet()")]
+    if len(ents) != 1:
+        raise AnalysisError("Library.from_top_entity: the collecting `x = IdSet()` not recognised")
+    ents = ents[0]
+    adds = [s for s in c.node.body if isinstance(s, ast.Expr) and isinstance(s.value, ast.Call) and dotted(s.value.func) == f"{ents}.add"]
     ok = len(loops) == 1 and len(adds) == 1 and c.node.body.index(loops[0]) < c.node.body.index(adds[0]) and dotted(adds[0].value.args[0]) == c.node.args.args[0].arg
     run.ob(ok, "Library.from_top_entity.collect_subenties", file=vh.rel, line=c.node.lineno, detail="post-order", expected="recurse into all sub-entities, then entities.add(parent_entity)", found="ok" if ok else "order changed")
     rec = [x for x in ast.walk(loops[0]) if isinstance(x, ast.Call) and dotted(x.func) == c.node.name] if loops else []
     ok = len(rec) == 1 and "sub_entities()" in P.T(loops[0].iter)
     run.ob(ok, "Library.from_top_entity.collect_subenties", file=vh.rel, line=c.node.lineno, detail="recursion", expected="collect_subenties(entity) for every sub-entity instance", found="ok" if ok else "changed")
     t = P.T(f.node)
-    ok = "entities = IdSet()" in t and "[*entities]" in t and not any(isinstance(x, ast.Call) and dotted(x.func) in ("reversed", "sorted") for x in ast.walk(f.node)) and "[::-1]" not in t
+    ok = f"[*{ents}]" in src(f.node) and not any(isinstance(x, ast.Call) and dotted(x.func) in ("reversed", "sorted") for x in ast.walk(f.node)) and "[::-1]" not in t
     run.ob(ok, "Library.from_top_entity", file=vh.rel, line=f.node.lineno, detail="ordered-container", expected="IdSet (insertion ordered, one entry per entity), emitted in collection order", found="ok" if ok else "changed")
     w = vh.func("Library.write")
     ok = "for entity in self._entities" in P.T(w.node)
@@ -183,18 +201,27 @@ def rule_defaults(run):
     ctx = run.idx.mod(CTX)
     init = ctx.func("Entity.__init__")
     sets = [a for a in ast.walk(init.node) if isinstance(a, ast.Assign) and isinstance(a.targets[0], ast.Attribute) and a.targets[0].attr == "_default"]
-    ok = len(sets) == 1 and dotted(sets[0].targets[0].value) == "port_def" and isinstance(sets[0].value, ast.Constant) and sets[0].value.value is None
+    ok = len(sets) == 1 and isinstance(sets[0].targets[0].value, ast.Name) and isinstance(sets[0].value, ast.Constant) and sets[0].value.value is None
+    actual_v = dotted(sets[0].targets[0].value) if sets else None
     run.ob(ok, "Entity.__init__", file=ctx.rel, line=(sets[0].lineno if sets else init.node.lineno), detail="actual-default-removed", expected="port_def._default = None (the connected actual)", found="; ".join(src(a) for a in sets) or "missing")
     if sets:
         defs = {}
         for a in ast.walk(init.node):
             if isinstance(a, ast.Assign) and isinstance(a.targets[0], ast.Name):
-                defs[a.targets[0].id] = src(a.value)
-        ok = defs.get("port_def") == "self._cohdl_port_definitions[name]" and defs.get("port_decl") == "info.ports[name]"
-        run.ob(ok, "Entity.__init__", file=ctx.rel, line=sets[0].lineno, detail="roles", expected="port_def = connected actual, port_decl = declared port", found=str({k: defs.get(k) for k in ("port_def", "port_decl")}))
+                defs[a.targets[0].id] = P.T(a.value)
+        # the object that loses its default is the connected actual (self._cohdl_port_definitions[<formal name>]); it is
+        # compared against the declaration (info.ports[<same name>]) -- whatever the locals are called
         g = [anc for anc in ctx.parents.ancestors(sets[0]) if isinstance(anc, ast.If)]
+        loop = [anc for anc in ctx.parents.ancestors(sets[0]) if isinstance(anc, ast.For)]
+        key = loop[0].target.elts[0].id if loop and isinstance(loop[0].target, ast.Tuple) else "name"
+        decl_v = None
+        for x in g:
+            for _n, b in P.find(x.test, "__a is not __d", {"__a": actual_v}):
+                decl_v = b["__d"]
+        ok = defs.get(actual_v) == f"self._cohdl_port_definitions[{key}]" and decl_v is not None and defs.get(decl_v) == f"info.ports[{key}]"
+        run.ob(ok, "Entity.__init__", file=ctx.rel, line=sets[0].lineno, detail="roles", expected="port_def = connected actual, port_decl = declared port", found=str({k: defs.get(k) for k in (actual_v, decl_v)}))
         tests = [src(x.test) for x in g]
-        ok = "port_def is not port_decl" in tests and any("is_output()" in t for t in tests)
+        ok = decl_v is not None and any("is_output()" in t for t in tests)
         run.ob(ok, "Entity.__init__", file=ctx.rel, line=sets[0].lineno, detail="guards", expected="only for output ports whose actual is not the declaration itself", found=str(tests))
     run.end()
 
